@@ -618,7 +618,7 @@ func (s *LogfmtStage) Text() string {
 // ParseLogfmt is a reference logfmt reader for the alphabet: space separated key=value, bare keys,
 // double-quoted values with Go escapes. ok=false for malformed input (unterminated quote, stray quote).
 // lfSep: pairs are separated by blanks, tabs and line breaks (a record may span several physical lines).
-func lfSep(c byte) bool { return c == ' ' || c == '\t' || c == '\n' }
+func lfSep(c byte) bool { return c <= ' ' } // (go-logfmt, which Loki uses as well: every byte up to the blank separates)
 
 func ParseLogfmt(line string) (kvs [][2]string, ok bool) {
 	i := 0
@@ -632,13 +632,13 @@ func ParseLogfmt(line string) (kvs [][2]string, ok bool) {
 		}
 		j := i
 		for j < n && line[j] != '=' && !lfSep(line[j]) {
-			if line[j] == '"' || line[j] < 0x20 {
+			if line[j] == '"' {
 				return kvs, false
 			}
 			j++
 		}
 		key := line[i:j]
-		if key == "" {
+		if key == "" || strings.ContainsRune(key, utf8.RuneError) { // (invalid UTF-8, or U+FFFD itself)
 			return kvs, false
 		}
 		if j >= n || lfSep(line[j]) {
